@@ -146,6 +146,12 @@ func (g *Gen) execInstr(in ssa.Instruction, st State, reach string) {
 		}
 		g.assume(and(app("<=", lo, ts[0].S), app("<", ts[0].S, fmt.Sprint(n))))
 		g.tuples[v] = ts
+		for _, sst := range v.States {
+			if sst.Dir == types.SendOnly {
+				g.chanOpLocked("send", false, v.Pos(), st, reach)
+				break
+			}
+		}
 		g.chanEffects(v, ts, st, reach)
 	case *ssa.Slice:
 		g.execSlice(v, st, reach)
